@@ -131,21 +131,47 @@ Definition prop_holds (k : kind) (l : list Z) (sz : Z) : bool :=
     end
   end.
 
+(* number of keys stored in a recorded dump (None: undecodable) *)
+Definition dump_keys (k : kind) (l : list Z) : option Z :=
+  match k with
+  | KRB | KAVL => match dec_bin (S (length l)) l with Some d => Some (Z.of_nat (length d)) | None => None end
+  | KBT _ => match dec_bt (S (length l)) l with
+             | Some d => Some (Z.of_nat (length (flat_map (@mn_keys Z) d)))
+             | None => None
+             end
+  end.
+
+(* Size(), Empty() and len(Keys()) reported by the implementation agree with the number of keys in ITS OWN dump *)
+Definition counts_hold (k : kind) (l : list Z) (sz : Z) (emp : bool) (nkeys : Z) : bool :=
+  match dump_keys k l with
+  | Some n => (sz =? n) && Bool.eqb emp (n =? 0) && (nkeys =? n)
+  | None => false
+  end.
+
 Definition zl_eqb := list_eqb Z.eqb.
-Definition model_agrees (st : mstate) (l : list Z) (sz : Z) : bool :=
-  let '(d, msz, ok) := model_dump st in ok && zl_eqb d l && (msz =? sz).
+Definition model_keys (st : mstate) : Z :=
+  match st with
+  | MRB s => Z.of_nat (length (BinTree.elements (RB.root s)))
+  | MAVL s => Z.of_nat (length (BinTree.elements (AVL.root s)))
+  | MBT _ s => Z.of_nat (length (bt_elements Z Z (BTree.root s)))
+  end.
+Definition model_agrees (st : mstate) (l : list Z) (sz : Z) (emp : bool) (nkeys : Z) : bool :=
+  let '(d, msz, ok) := model_dump st in
+  ok && zl_eqb d l && (msz =? sz) && Bool.eqb emp (msz =? 0) && (nkeys =? model_keys st).
 
 (* c_path is replayed silently on the model (those transitions are checked by other cases);
    c_branch = true: every step starts from the state after the path (one case = one reachable shape and all
    its next operations); false: the steps are consecutive. A step = (operations applied without a dump, operation,
-   dump after it, Size() after it); a dump [-1] records a panic of the real operation. *)
+   dump after it, Size(), Empty(), len(Keys()) after it); a dump [-1] records a panic of the real operation. *)
 Record case := { c_kind : kind; c_path : list (op Z Z); c_branch : bool;
-                 c_steps : list (list (op Z Z) * op Z Z * list Z * Z) }.
+                 c_steps : list (list (op Z Z) * op Z Z * list Z * Z * bool * Z) }.
 
-Definition do_step (k : kind) (branch : bool) (st : mstate) (x : list (op Z Z) * op Z Z * list Z * Z) : mstate * nat :=
-  let '(pre, o, l, sz) := x in
+Definition do_step (k : kind) (branch : bool) (st : mstate)
+           (x : list (op Z Z) * op Z Z * list Z * Z * bool * Z) : mstate * nat :=
+  let '(pre, o, l, sz, emp, nkeys) := x in
   let st' := fst (model_step (fst (run model_step st pre)) o) in
-  (if branch then st else st', kind_of (model_agrees st' l sz) (prop_holds k l sz)).
+  (if branch then st else st',
+   kind_of (model_agrees st' l sz emp nkeys) (prop_holds k l sz && counts_hold k l sz emp nkeys)).
 
 Definition check_case (c : case) : nat :=
   let st0 := fst (run model_step (init_m (c_kind c)) (c_path c)) in
